@@ -50,7 +50,7 @@ CFG = dict(
          "no panic, output length, and the null / non-null pattern against the model run (positions whose window is singular in "
          "exact arithmetic are skipped, DESIGN 5.6); nt=0 marks empty input",
     theorem_hint="Props/C05.v",
-    level_text="Proof (Props/C05.v, 52 obligations): (i) every add-emit-remove rolling feature returns exactly one output per "
+    level_text="Proof (Props/C05.v, 68 obligations): (i) every add-emit-remove rolling feature returns exactly one output per "
                "input through both driver bodies, for every window >= 1, and an empty result on empty input, never a panic or an "
                "unwritten slot (generic, any carrier); the index-form entry points (ts_vmin/vmax/vargmin/vargmax/vrank, "
                "ts_vminmaxnorm, ts_vregx_resid_*) return the empty result on the empty series for EVERY window, carrier and null "
@@ -64,12 +64,21 @@ CFG = dict(
                "time-trend regressions (n < 2); z-score (current element null or population variance <= EPS), min-max norm "
                "(current null or max = min; elements within the type sentinels); cov (n < max(mp',2)), corr (either population "
                "variance <= EPS), regx_alpha/beta/all (detB = n Sbb - Sb^2 = 0, i.e. constant regressor), regx_resid_mean/std/skew "
-               "(detB = 0; skew additionally n < 3) over the pairwise-complete observations; min/max/argmin/argmax (integer "
-               "carrier, any null dictionary, axiom-free: count < mp' or no valid element), rank (current element null or count "
-               "< mp'); ts_fdiff (null-free input: never null), ts_vfdiff (count < mp'); the plain families ts_sum..ts_kurt, ts_ewm, "
+               "(detB = 0; skew additionally n < 3) over the pairwise-complete observations; min/max/argmin/argmax (count < mp' or "
+               "no valid element; for min/max a non-null output is moreover never NaN) and rank (current element null or count < "
+               "mp'; rank arithmetic in option R) at EVERY ordered carrier: the integer carrier (axiom-free) and, as corollaries of "
+               "the C03 closed forms for every carrier satisfying the order laws OrdLaws of Spec/ExtremaOrd.v (Proofs/MaskOrd.v, "
+               "C05_*_ordered: any null dictionary, any series whose valid elements are not NaN, both bodies), at Coq's primitive "
+               "binary64: f64 series with NaN as the null with no premise at all (C05_mask_ts_v{min,max,argmin,argmax}_binary64, "
+               "C05_mask_ts_vrank_binary64_input, C05_extrema_one_output_per_input_binary64) and Option<f64> series under the "
+               "DESIGN 5.4 premise 'no Some(NaN)' (C05_mask_cmp_family_option_binary64; C05_some_nan_is_outside_the_property: on "
+               "Some(NaN) elements the model of ts_vargmin does not return, so the premise cannot be dropped) — resting only on the "
+               "standard library's FloatAxioms.{eqb,ltb,leb}_spec; ts_vrank returns one output per input without panic for EVERY "
+               "input AND output carrier with no law and no premise (C05_rank_one_output_per_input_any_carrier); ts_fdiff (null-free input: never null), ts_vfdiff (count < mp'); the plain families ts_sum..ts_kurt, ts_ewm, "
                "ts_wma on null-free input (same masks, count = window length). Derived from the closed forms of "
-               "C01/C03/C04 (Proofs/Mask.v, Mask2.v, Mask3.v, Mask4.v). Not covered by a theorem (correspondence only): float element "
-               "carrier of the extrema/rank family, series of unequal length in the two-series functions, a null order d in "
+               "C01/C03/C04 (Proofs/Mask.v, Mask2.v, Mask3.v, Mask4.v). Not covered by a theorem (correspondence only): the null mask of "
+               "ts_vrank when the rank ARITHMETIC is binary64 too (that 1.0-steps, 0.5*(n_repeat-1) and the division by n never "
+               "produce NaN needs the arithmetic FloatAxioms, not used here; length / no panic IS proved there), series of unequal length in the two-series functions, a null order d in "
                "fdiff, min-max norm without the sentinel bound. Tied to the code by a mask-only differential run of all 37 entry "
                "points on every backend incl. empty and len < w input, and statically (translator, Proofs/SrcTablesRoll.v, re-checked on "
                "every run): the shape of the min_periods computation of all 38 `fn ts_*` (clamp-to-length first?, `.min(window)`?, "
